@@ -394,6 +394,29 @@ pub fn generate(g: &mut Gen, thorough: bool) {
         ];
         g.push(format!("S_C10P\t{}\t{}\t{}", escape(a), escape(b), data_of(&pts)), "oracle-pipeline-minimum", true);
     }
+    // operators working on one element only: auxiliary latitudes (second element, radians) in either direction -
+    // both names of the reduced latitude given at once included -, curvatures and gravity (first element, degrees):
+    // every tuple counted once, the other three elements bit for bit, tuples of one height at different latitudes
+    {
+        let lat: Vec<[f64; 4]> = (0..6).map(|i| [g.rng.uniform(-3.0, 3.0), g.rng.uniform(-1.5, 1.5), [0.0, 250.0, 250.0, -30.0][i % 4], 2000.0 + i as f64]).collect();
+        for kind in ["geocentric", "reduced", "parametric", "reduced parametric", "conformal", "rectifying", "authalic"] {
+            for dir in ["F", "I"] {
+                case(g, "default", &format!("latitude {kind} ellps=intl"), dir, "1", "023", &lat, "iiiiii", "latitude-one-element", true);
+            }
+        }
+        let h = g.rng.uniform(100.0, 3000.0);
+        let deg: Vec<[f64; 4]> = (0..6).map(|i| [g.rng.uniform(-89.0, 89.0), if i % 3 == 0 { g.rng.uniform(0.0, 3000.0) } else { h }, g.rng.uniform(-50.0, 50.0), 2000.0]).collect();
+        for kind in ["prime", "meridian", "gaussian", "mean", "azimuthal"] {
+            // (the azimuthal curvature reads the azimuth from the second element and hands it back in radians: it works on both)
+            let (w, k) = if kind == "azimuthal" { ("01", "23") } else { ("0", "123") };
+            case(g, "default", &format!("curvature {kind}"), "F", w, k, &deg, "iiiiii", "curvature-one-element", true);
+        }
+        for kind in ["", " cassinis", " jeffreys", " grs67", " grs80", " welmec"] {
+            for zh in ["", " zero-height"] {
+                case(g, "default", &format!("gravity{kind}{zh}"), "F", "0", "123", &deg, "iiiiii", "gravity-one-element", true);
+            }
+        }
+    }
     // one-way operators: the inverse reports zero and leaves the data alone
     for def in ["curvature prime", "curvature mean ellps=intl", "gravity grs80", "gravity welmec", "deflection grids=test.geoid"] {
         let pts: Vec<[f64; 4]> = (0..5).map(|_| [g.rng.uniform(-80.0, 80.0), g.rng.uniform(-170.0, 170.0), g.rng.uniform(0.0, 1000.0), 2000.0]).collect();
